@@ -388,7 +388,7 @@ func (x *c02G) op() string {
 		}
 		return "op w:bad-rows " + x.reqStream(um.params, Pick(r, []int{0, 2, 3}), ucells(0), x.meta(Pick(r, []string{um.name, sm.name}), true))
 	case k < 20:
-		name := Pick(r, []string{"nope", "", "U3", "u3 ", "ü", "__describe", "p3x"})
+		name := Pick(r, []string{"nope", "", "U3", "u3 ", "ü", "__describe", "p3x", "\uFFFD", "u3\uFFFD", "\uFFFF", "\U0010FFFF", "\uD7FF\uE000"})
 		return "op w:unknown-method " + x.reqStream(um.params, 1, ucells(0), x.meta(name, true))
 	case k < 21:
 		return "op w:describe " + x.reqStream(nil, 1, nil, x.meta("__describe__", r.Bool()))
